@@ -81,6 +81,10 @@ func init() {
 		s, n := timeParts(a[0])
 		return e.tb.Add(e.tb.Mul(s, e.tb.Const(64, 1000)), e.tb.SDiv(n, e.tb.Const(64, 1_000_000)))
 	})
+	reg("(time.Time).UnixMicro", func(e *Exec, fn *ssa.Function, a []Value) Value {
+		s, n := timeParts(a[0])
+		return e.tb.Add(e.tb.Mul(s, e.tb.Const(64, 1_000_000)), e.tb.SDiv(n, e.tb.Const(64, 1000)))
+	})
 	reg("(time.Time).Nanosecond", func(e *Exec, fn *ssa.Function, a []Value) Value {
 		_, n := timeParts(a[0])
 		return n
@@ -164,7 +168,7 @@ func init() {
 			panic(unsupported("formatting a symbolic time.Time"))
 		})
 	}
-	reg("time.Sleep", func(e *Exec, fn *ssa.Function, a []Value) Value { return nil })
+	reg("time.Sleep", func(e *Exec, fn *ssa.Function, a []Value) Value { e.runPendingTasks(); return nil }) // sleeping lets the other goroutines run
 }
 
 func isTimeMethod(name string) bool {
